@@ -28,7 +28,11 @@ def encode_event(sim, ev, n=0):
     if k == 'upd':
         return ss.marked_update(n & 0xFFFF)[0]
     if k == 'notif':
-        return rc.notification(2, 1) if ev[1] == 'ver' else rc.notification(6, 2)
+        if ev[1] == 'ver':
+            return rc.notification(2, 1)
+        if len(ev) >= 4:       # ['notif', 'other', code, subcode, data-hex]: the RFC treats every code alike
+            return rc.notification(ev[2], ev[3], bytes.fromhex(ev[4]) if len(ev) > 4 else b'')
+        return rc.notification(6, 2)
     if k == 'rr':
         return rc.route_refresh(1, 1)
     if k == 'bad_marker':
@@ -310,7 +314,8 @@ def run_events(events, cfg=None, regime='single', stop_on_failure=True):
     """Replay an explicit event list on a fresh driver.  Events that are not enabled end the replay."""
     d = Driver(cfg, regime=regime)
     for ev in events:
-        if list(ev) not in d.enabled():
+        en = d.enabled()
+        if list(ev) not in en and not (ev[0] == 'notif' and list(ev[:2]) in en):
             d.failures.append(('harness:not-enabled', 'event %r not enabled after %r' % (ev, d.history)))
             break
         d.apply(list(ev))
